@@ -24,6 +24,7 @@ struct Model {
     bool directed = true;
     unsigned n = 0;
     std::map<Key, MEdge> e;
+    std::map<Key, char> ever; // pairs that were an edge at some point of this history (where stale state can hide)
     std::map<Key, int> orphan; // absent pairs that were given a label by setEdgeLabel(force=true): label oracles do not apply
     long double absAdded = 0; // running magnitude of all weights ever added (rounding bound of C05)
     long mutations = 0;       // effective mutations so far
@@ -92,13 +93,14 @@ struct Model {
         if (e.count(k)) return false;
         MEdge m; m.val = val;
         e[k] = m;
+        if (n > 24) ever[k] = 1;
         touch();
         return true;
     }
     void addForced(unsigned a, unsigned b, double val) {
         Key k = key(a, b);
         auto it = e.find(k);
-        if (it == e.end()) { MEdge m; m.val = val; e[k] = m; }
+        if (it == e.end()) { MEdge m; m.val = val; e[k] = m; if (n > 24) ever[k] = 1; }
         else {
             it->second.copies += 1;
             if (it->second.val != val) it->second.known = false;
